@@ -74,6 +74,13 @@ def session(bindir, steps, tag, size=(24, 80), touch=False, filter_time=120, qui
             elif k == "arrive":
                 srv.push(aircraft_lines(rng, st[1]))
                 rd.wait_frames(n + 5, 3)
+            elif k == "samespot":
+                lat, lon = RXF[0] + 0.31, RXF[1] + 0.47
+                for _ in range(st[1]):
+                    addr = rng.randrange(1, 1 << 24)
+                    fr = [track_checks.f_pos(rng, addr, lat, lon, 0, 12000), track_checks.f_pos(rng, addr, lat, lon, 1, 12000)]
+                    srv.push(b"".join(b"*" + bytes(f).hex().encode() + b";\n" for f in fr))
+                rd.wait_frames(n + 8, 3)
             elif k == "wait":
                 t0 = time.time()
                 while time.time() - t0 < st[1]:
@@ -230,7 +237,7 @@ def judge_sessions(prop, rep, events, name):
         si = bisect.bisect_right(starts, v["index"]) - 1
         lo = starts[si]
         ev = events[v["index"]]
-        cls = re.sub(r"(model|random|life|stale)\d+", r"\1", v["cls"])
+        cls = re.sub(r"(model|random|life|stale|samespot)\d+", r"\1", v["cls"])
         keep = ("ev", "keys", "quit", "code", "added", "hex", "exit", "alive", "quit_sent", "retry", "tag", "filter_time", "panic",
                 "termios_before", "termios_after", "modes")
         hi = next((j for j in range(v["index"], len(events)) if events[j]["ev"] == "session_end"), v["index"])
@@ -456,7 +463,10 @@ def run(prop, tier, seed, rep):
         if i == 1:
             st = st[4:] + st[:4]
         stale.append(dict(steps=st, tag=f"stale{i}", size=(24, 80), touch=touch, filter_time=120, quit_at_end=True))
-    jobs = msess + rsess + stale
+    # several aircraft at one spot (one coverage cell is hit again and again), every tab visited, for a while
+    jobs = msess + rsess + stale + [dict(steps=[("frame",), ("samespot", 3), ("key", "F2"), ("wait", 1.0), ("key", "F3"), ("key", "F2"), ("wait", 0.6),
+                                                 ("key", "F4"), ("key", "F1"), ("key", "F2"), ("frame",)],
+                                          tag="samespot0", size=(30, 100), touch=False, filter_time=120, quit_at_end=True)]
 
     def do(j):
         return session(bindir, **j)
@@ -514,7 +524,7 @@ def run(prop, tier, seed, rep):
         job = jobs[si] if si < len(jobs) else {"tag": "cli"}
         for owner, field in v["pairs"]:
             k = f"{owner}|{v['cls']}|{field}"
-            cls = re.sub(r"(model|random|stale)\d+", r"\1", v["cls"])
+            cls = re.sub(r"(model|random|stale|samespot)\d+", r"\1", v["cls"])
             summary.setdefault(k, [0, ev.get("panic_text", ev.get("stderr", ""))])[0] += 1
             w = {"kind": "ui", "event": {k2: ev[k2] for k2 in ev if k2 not in ("planes",)}}
             if "steps" in job:
